@@ -164,6 +164,10 @@ async def run_steps(env: Env, node: NodeSpec, phase: str, steps: list):
             _, label, value, name, types = st
             add_resource(value, name, types)
             env.ev("pub", node.idx, label)
+        elif k == "pubtwice":
+            # the component fails INSIDE add_resource(..., teardown_callback=...): the pair is already taken (by itself, a moment ago)
+            add_resource(object(), "dup", [R6])
+            add_resource(object(), "dup", [R6], teardown_callback=lambda: env.ev("td", "callback-of-the-refused-resource"))
         elif k == "pubfail":
             # a publication that is refused (ResourceConflict) and handled by the component
             _, label, value, name, types = st
